@@ -11,7 +11,7 @@ C16  Asynchronous requests (set_data / get_data).
 * `get_data_*`        : the data path of an accepted get_data (`MosaikRemote.get_data`): every requested attribute is answered
                         from the cache slice or forwarded to the other simulator, never both; cached values survive the merge
                         with the forwarded reply; with `cache=False` everything is forwarded; the slice is the other
-                        simulator's output history at the requester's *last* step (which, inside a step, is the previous one)
+                        simulator's output history at the time of the requester's running step
 * `order`             : when A (with async connection A → B) begins a step at `t`, B's progress has
                         reached `t`; so while B's step at `tb` is in flight A begins no step later
                         than `tb`
@@ -214,18 +214,33 @@ theorem get_data_nocache (cfg : Cfg) (s : State) (p target : Sid) (req : List Po
   asyncMissing_nocache cfg s p target req hc
 
 /-- `cache=True`, any run whose output times do not go back: the slice read is the entry of the other simulator's never-pruned
-output history that is newest at or before the requester's `last_step` — inside a step that is the step *before* the running
-one (−1 before the first: nothing is found and everything is forwarded) -/
+output history that is newest at or before the lookup time — the time of the requester's running step (`get_data_at_step_time`;
+before fix D23 it was the step BEFORE the running one, so cache on and cache off answered differently) -/
 theorem get_data_reads_history {cfg : Cfg} (hw : WFCfg cfg) (hc : cfg.useCache = true) (hi : InitSorted cfg) {s : State}
     (hr : ReachM cfg s) (hnf : s.failed = none) {p target : Sid} (hp : p < cfg.n) (ht : target < cfg.n) :
-    asyncSlice cfg s p target = getOutputFor (histOf cfg target s.log) (lastTime s p) :=
+    asyncSlice cfg s p target = getOutputFor (histOf cfg target s.log) (asyncLookupTime s p) :=
   asyncSlice_history hw hc hi hr hnf hp ht
+
+/-- in every reachable state a simulator that is inside a step reads the cache at the time of that step -/
+theorem get_data_at_step_time {cfg : Cfg} (hw : WFCfg cfg) {s : State} (hr : Reach cfg s) (hnf : s.failed = none) {p : Sid}
+    (hp : p < cfg.n) {c : TT} (hcur : (s.sims p).cur = some c) : asyncLookupTime s p = (TT.time c : Int) := by
+  apply asyncLookupTime_cur s p c hcur
+  unfold lastTime
+  cases hl : (s.sims p).last with
+  | none => simp only; omega
+  | some t =>
+    simp only
+    obtain ⟨hcore, _⟩ := reach_good hw hr hnf
+    have hso := hcore p hp
+    have hb : t ∈ (s.sims p).begun := reach_lastOk hw hr hnf p hp t hl
+    have hle : t ≤ c := by rw [← hso.cur_eq c hcur]; exact hso.begun_le t hb
+    exact Int.ofNat_le.mpr (TT.time_mono hle)
 
 /-- non-vacuity: a request for a cached and an uncached attribute of one entity; the other simulator answers the uncached one -/
 example :
     let cfg : Cfg := { sims := [{ outputs0 := [(0, [((0, 2), some 7)])] }, {}], useCache := true }
     let s := initState cfg
-    let s1 := s.upd 1 fun x => { x with last := some [0] }
+    let s1 := s.upd 1 fun x => { x with last := some [0], cur := some [0] }
     asyncMissing cfg s1 1 0 [(0, 2), (0, 3)] = [(0, 3)] ∧
     asyncAnswer cfg s1 1 0 [(0, 2), (0, 3)] [((0, 3), some 9)] = [((0, 2), some 7), ((0, 3), some 9)] := by
   decide
